@@ -3,6 +3,7 @@
    for every iteration order the randomly seeded hash sets can produce.
    Proofs live in GraphProofs.v. *)
 From HclV Require Import Base Expr Machine Graph GraphSpec GraphProofs Build BuildSpec Generated LoopSpec LoopProofs.
+From HclV Require TextLevelSpec TextLevelProofs.
 Open Scope N_scope.
 
 Section C10.
@@ -124,3 +125,11 @@ Print Assumptions C10_const_loop_iff_self_dependence.
    port is accepted; reg_srcA -> reg_outputA, pc -> i10bytes, mem_addr -> mem_output are loops *)
 Check ex_bank_accepted. Check ex_regwrite_accepted. Check ex_memwrite_accepted.
 Check ex_srcA_rejected. Check ex_pc_rejected. Check ex_mem_rejected. Check ex_const_rejected.
+
+(* ---- END TO END, from the program TEXT (TextLevelSpec.v / TextLevelProofs.v): the user's file (valid
+   UTF-8) after the compiled preamble, lexed with any Unicode classification, parsed with the compiled
+   tier table, built with the compiled component table; states = those reachable by loading an
+   image and stepping.  No hypothesis a user cannot check by reading the file. ------------------- *)
+Theorem C10_text_level : TextLevelSpec.stmt_text_accepted_is_acyclic /\ TextLevelSpec.stmt_text_cyclic_is_rejected.
+Proof. split; [exact TextLevelProofs.text_accepted_is_acyclic_holds | exact TextLevelProofs.text_cyclic_is_rejected_holds]. Qed.
+Print Assumptions C10_text_level.
